@@ -91,16 +91,7 @@ type gen struct {
 }
 
 func (g *gen) amount(denom string) sdk.Coins {
-	r := g.r
-	d := denom
-	if d == "" {
-		d = c09lib.Denoms[r.Intn(len(c09lib.Denoms))]
-	}
-	cs := sdk.NewCoins(sdk.NewInt64Coin(d, int64(1+r.Intn(500))))
-	if r.Chance(15) {
-		cs = cs.Add(sdk.NewInt64Coin(c09lib.Denoms[r.Intn(len(c09lib.Denoms))], int64(1+r.Intn(50))))
-	}
-	return cs
+	return c09lib.CoinSet(g.r, uint64(1+g.r.Intn(500)), denom)
 }
 
 // a message; fail=true asks for one whose handler fails
@@ -137,12 +128,7 @@ func (g *gen) msg(from string, fail bool) c09lib.M {
 		return m
 	case 3:
 		a := g.amount("")
-		if len(a) == 1 && a[0].Amount.GT(sdk.OneInt()) && r.Bool() {
-			h := a[0].Amount.QuoRaw(2)
-			to2 := g.people[r.Intn(len(g.people))]
-			return c09lib.M{Kind: "multisend", From: from, Amt: a, Outs: []c09lib.Out{{To: to, Amt: sdk.NewCoins(sdk.NewCoin(a[0].Denom, h))}, {To: to2, Amt: sdk.NewCoins(sdk.NewCoin(a[0].Denom, a[0].Amount.Sub(h)))}}}
-		}
-		return c09lib.M{Kind: "multisend", From: from, Amt: a, Outs: []c09lib.Out{{To: to, Amt: a}}}
+		return c09lib.M{Kind: "multisend", From: from, Amt: a, Outs: c09lib.SplitOutputs(r, a, g.people)}
 	default:
 		g.nmark++
 		return c09lib.M{Kind: "other", From: from, Ty: "register_identity_records", Fails: false, Mark: fmt.Sprintf("k%d", g.nmark)}
